@@ -745,6 +745,84 @@ def site_srp_multiple(case, rng):
     return o
 
 
+def site_ticket12(case, rng):
+    """(7b) TLS <= 1.2 session ticket carrying an SRP user name (/repo 19b1cb2): the name is
+    attributed to a resuming peer only after the ticket decrypted and the Finished verified"""
+    import copy
+    ver, how = tuple(case['ver']), case['how']
+    tk = [bytearray(b'\x22' * 32)]
+    db = loop.make_verifier_db()
+    p0 = loop.Pair()
+    if how == 'userless-ticket-with-srp-hello':
+        sc, sk = loop.creds('rsa')
+        co, so = p0.handshake(client_kw=dict(settings=vset(ver)),
+                              server_kw=dict(certChain=sc, privateKey=sk, settings=vset(ver, ticketKeys=tk)))
+    else:
+        co, so = p0.handshake(client_kw=dict(username=bytearray(b'test'), password=bytearray(b'password'), settings=vset(ver)),
+                              server_kw=dict(verifierDB=db, settings=vset(ver, ticketKeys=tk)), client_kind='srp')
+    sess = p0.client.session
+    if co[0] != 'ok' or not sess.tls_1_0_tickets:
+        return {'site': case['site'], 'harness_error': 'no TLS<=1.2 ticket obtained: %r' % (co,), 'case': case}
+    r = Run(case, rng)
+    p = r.p
+    claim = b'test'
+    extra = None
+    if how == 'wrong-master':                    # the attacker has the opaque ticket, not the master secret
+        sess = copy.copy(sess)
+        sess.masterSecret = bytearray(48)
+    hello_user = b'test'
+    if how == 'other-user':                      # ticket of user "test" presented by a hello that names "admin"
+        hello_user = b'admin'
+
+        def extra(mm):
+            if isinstance(mm, ClientHello):
+                e = mm.getExtension(ExtensionType.srp)
+                if e is not None:
+                    e.identity = bytearray(b'admin')
+            return mm
+    if how == 'userless-ticket-with-srp-hello':
+        claim = b'admin'
+
+        def extra(mm):
+            if isinstance(mm, ClientHello):
+                mm.addExtension(SRPExtension().create(bytearray(claim)))
+            return mm
+    r.send_hook(p.client, 'none', extra=extra)
+    r.recv_hook(p.client)
+    if how == 'userless-ticket-with-srp-hello':
+        sc, sk = loop.creds('rsa')
+        co, so = p.handshake(client_kw=dict(session=sess, settings=vset(ver)),
+                             server_kw=dict(certChain=sc, privateKey=sk, settings=vset(ver, ticketKeys=tk)))
+    else:
+        co, so = p.handshake(client_kw=dict(username=bytearray(claim), password=bytearray(b'password'), session=sess,
+                                            settings=vset(ver)),
+                             server_kw=dict(verifierDB=db, settings=vset(ver, ticketKeys=tk)), client_kind='srp')
+    if how == 'userless-ticket-with-srp-hello':
+        # the ticket is declined: a full certificate handshake follows (flow 2); no SRP name may appear
+        m = base_model(2, ver)
+        m['kx'] = kx_of(r.cap['suite']) if r.cap['suite'] is not None else 1
+        m['srp_user'] = list(claim)
+        m['own_chain'] = [CRED_ID['rsa']]
+        m['a_fin'].append((0, [11], True))
+        o = finish(case, p, 'server', so, co, m, True, None)
+        o['srp_unproved'] = o['code'] == 0 and o['ident']['srp'] is not None
+        o['key'] = 'rsa'
+        return o
+    m = base_model(6, ver)
+    m['psk'] = 3
+    m['ticket_srp'] = list(b'test')
+    m['srp_user'] = list(hello_user)
+    m['rec_ok'] = how != 'wrong-master'
+    m['a_fin'].append((0, [11], how != 'bad-finished'))
+    m['by_construction'] += ['fin', 'rec', 'ticket decrypts']
+    o = finish(case, p, 'server', so, co, m, how == 'honest', None)
+    o['key'] = 'srp-ticket'
+    if how == 'honest' and o['code'] == 0 and o['ident']['srp'] != 'test':
+        o['expect_accept'] = False               # reported as a lost identity below
+        o['lost_identity'] = True
+    return o
+
+
 # ---- post-handshake authentication ---------------------------------------------------------
 def site_pha(case, rng):
     """(5) server under test: request_post_handshake_auth, then the client's Certificate /
@@ -984,6 +1062,9 @@ def extra_cases(quick=False):
             for rq in (False, True):
                 out.append(dict(runner='ticket_replay', site='ticket-replay', ver=(3, 4), key=key, how=how, req_cert=rq))
     for ver in [(3, 1), (3, 3)]:
+        for how in ['honest', 'wrong-master', 'other-user', 'bad-finished', 'userless-ticket-with-srp-hello']:
+            out.append(dict(runner='ticket12', site='srp-ticket', ver=ver, how=how))
+    for ver in [(3, 1), (3, 3)]:
         for k in (0, 1, 2, 3):
             out.append(dict(runner='srp_multiple', site='srp-A-multiple', ver=ver, how='A=kN', k=k, verifier='server'))
             out.append(dict(runner='srp_multiple', site='srp-B-multiple', ver=ver, how='B=kN', k=k, verifier='client'))
@@ -1005,7 +1086,7 @@ def extra_cases(quick=False):
     return out
 
 
-SITES = {'cert': site_cert, 'srp': site_srp, 'srp_unproved': site_srp_unproved, 'psk': site_psk, 'pha': site_pha, 'ticket': site_ticket, 'ticket_replay': site_ticket_replay, 'srp_multiple': site_srp_multiple,
+SITES = {'cert': site_cert, 'srp': site_srp, 'srp_unproved': site_srp_unproved, 'psk': site_psk, 'pha': site_pha, 'ticket': site_ticket, 'ticket12': site_ticket12, 'ticket_replay': site_ticket_replay, 'srp_multiple': site_srp_multiple,
          'dc': site_dc}
 
 
